@@ -11,10 +11,10 @@ HARNESSES = [{"name": "main", "src": "harness.cpp", "compiler": _PCXX,
 
 RULE = ("the complete value-category tables (get / pair get / forward / forward_like / invoke on function objects, "
         "member-function and member-data pointers with object, derived, reference_wrapper and pointer receivers / "
-        "reference_wrapper / function_ref / inplace_function call / bind_front / not_fn / apply / make_from_tuple / "
+        "reference_wrapper / function_ref / inplace_function call / bind_front / not_fn (one and two call arguments, up to two bound arguments) / apply / make_from_tuple / "
         "tuple_cat element transfer / pair assignment / element transfer of the pair and tuple constructors, make_pair, make_tuple, forward_as_tuple), every pair of pairs and of 2- and 3-tuples over {0,1,2}, all "
         "tuple_cat shapes up to 3 operands of arity <= 3, and inplace_function histories over 2 wrappers x 3 targets x 4 "
-        "target palettes: exhaustive to depth 2 over the full operation alphabet (62 operations), to depth 4 over a 16-operation core alphabet and to depth 5 over a 10-operation alphabet with self swap / self assignment, "
+        "target palettes: exhaustive to depth 2 over the full operation alphabet (50 operations for 2 wrappers, incl. assignment / construction from a null function pointer), to depth 4 over a 16-operation core alphabet and to depth 5 over a 10-operation alphabet with self swap / self assignment, "
         "plus seeded random histories up to depth 14 (thorough: up to 4 wrappers, depths 3 / 5 / 6, more random); every history is "
         "followed by probes (bool and two calls per wrapper). non-trivial = distinct case line whose impl leg starts "
         "with ok / ill")
@@ -33,7 +33,7 @@ def full_alphabet(nw):
     for w in W:
         for t in range(3):
             ops += [(0, w, t), (12, w, t)]
-        ops += [(5, w, 0), (13, w, 0), (14, w, 0), (9, w, 0), (8, w, 7)]
+        ops += [(5, w, 0), (13, w, 0), (14, w, 0), (15, w, 0), (16, w, 0), (9, w, 0), (8, w, 7)]
         for v in W:
             ops += [(1, w, v), (2, w, v), (3, w, v), (4, w, v), (6, w, v), (7, w, v)]
     return ops
@@ -187,6 +187,29 @@ def gen_tables(tier, rng):
         for sk in (0, 2):
             for sc in range(3):
                 out.append(f"passign {dk} {sk} {sc}")
+    # results come back unchanged: callable result kinds A, A&, A const&, A&&, A const&& through every wrapper
+    for rk in range(5):
+        for which in range(7):
+            out.append(f"ret {which} {rk}")
+        for Rk in range(5):
+            if not (Rk > 0 and rk == 0):
+                out.append(f"retsig 0 {Rk} {rk}")
+                out.append(f"retsig 1 {Rk} {rk}")
+    for ac in R4:
+        out.append(f"refwf {ac}")
+    # two bound / two call arguments
+    for a1 in R4:
+        for a2 in R4:
+            for wc in R4:
+                out.append(f"bindfront2 {wc} {a1} {a2}")
+                for v in (4, 5):
+                    out.append(f"notfn2 {wc} {a1} {a2} {v}")
+            for c in range(2):
+                out.append(f"refwrap2 {c} {a1} {a2}")
+            for sp in range(5):
+                out.append(f"ipfcall2 {sp} {a1} {a2}")
+                for fc in range(2):
+                    out.append(f"fref2 {fc} {sp} {a1} {a2}")
     # element transfer on construction: pair / tuple constructors, make_pair / make_tuple / forward_as_tuple
     for k in R6:
         for ac in R4:
@@ -221,11 +244,20 @@ def gen_tables(tier, rng):
         out.append(f"retref {w}")
     for _ in range(20):
         out.append("refwrapops %d %d" % (rng.randint(-1000, 1000), rng.randint(-1000, 1000)))
+        out.append("refwrapstd %d" % rng.randint(-1000, 1000))
         out.append("frefops %d" % rng.randint(-1000, 1000))
         out.append("notfnstatic %d" % rng.randint(-3, 3))
         out.append("voidret %d" % rng.randint(-1000, 1000))
         out.append("makepairref %d %d" % (rng.randint(-1000, 1000), rng.randint(-1000, 1000)))
-    # (catkind / catnest are only replayed as known-finding witnesses)
+    # tuple_cat result types (after the fix of the CTAD-built result) and tuple_element
+    for k in R4:
+        out.append(f"catkind {k}")
+    out.append("catnest")
+    for k in R6:
+        out.append(f"telem {k}")
+        for c in R4:
+            if not (k >= 4 and c < 2):
+                out.append(f"catk {k} {c}")
     return out
 
 
@@ -241,6 +273,12 @@ def gen_values(tier, rng):
     for a in itertools.product(small, repeat=2):
         for b in itertools.product(small, repeat=2):
             out.append("prel %d %d %d %d" % (a + b))
+    # a partially ordered member type (double, 777777 = NaN): every pair of pairs over {0, 1, NaN}; the lines on which
+    # C++20's <=>-synthesised relations differ from pair.hpp's C++17 definitions are known finding
+    # KF-C20-pair-relops-partial-order
+    for a in itertools.product([0, 1, 777777], repeat=2):
+        for b in itertools.product([0, 1, 777777], repeat=2):
+            out.append("prelnan %d %d %d %d" % (a + b))
     edge = [-2147483648, -1, 0, 1, 2147483647]
     for a1 in edge:
         for b1 in edge:
